@@ -8,7 +8,7 @@ import re
 import time
 from typing import Any
 
-from .. import semgen, semlean, semrun
+from .. import semfam, semgen, semlean, semrun
 from ..runner import Check
 from ..translate import constraints as tconstraints
 
@@ -100,6 +100,22 @@ def union_str_before_number(doc: dict) -> bool:
     return doc_has(doc, p)
 
 
+def missing_required_nullable(doc: dict, s: Any, v: Any, depth: int = 0) -> bool:
+    """the instance lacks a required member whose schema admits null (C04's known finding D7)"""
+    if depth > 8 or not isinstance(s, dict):
+        return False
+    s = semgen.resolve(doc, s)
+    if isinstance(v, dict) and isinstance(s.get("properties"), dict):
+        for nm in s.get("required", []):
+            ps = s["properties"].get(nm)
+            if nm not in v and isinstance(ps, dict) and semgen.admits_null(doc, ps):
+                return True
+        return any(missing_required_nullable(doc, ps, v[nm], depth + 1) for nm, ps in s["properties"].items() if nm in v)
+    if isinstance(v, list) and isinstance(s.get("items"), dict):
+        return any(missing_required_nullable(doc, s["items"], x, depth + 1) for x in v)
+    return False
+
+
 def add_undeclared(doc: dict, inst: Any) -> tuple[Any, str] | None:
     """instance with one undeclared member added to the root object, when the schema allows it
     (returns the instance and how additionalProperties was written)"""
@@ -128,6 +144,18 @@ def campaign_model(ck: Check, n: int, parts: tuple = ("valid", "tr", "acc"), for
     docs: list[tuple[dict, set]] = [(d, {f"focused:{l}"}) for l, d in focused_docs()]
     for i in range(n):
         docs.append(semgen.gen_doc(rng.fork(str(i)), gen_cfg(i)))
+    # the families of vlib/semfam.py, with the instances built for them (nulls at every nullable place, the members a
+    # nested combination contributes)
+    fam_insts: dict[str, list] = {}
+    from ..common import Rng
+
+    frng = Rng(ck.seed, f"{ck.prop}/{fork}-families")  # (not ck.rng.fork: the streams of the later campaigns stay as they were)
+    off = frng.below(96)
+    for i in range(max(6, n // 6)):
+        for gen, tag in ((lambda r, k: semfam.nullable_doc(r, k, kinds=semfam.MODELLED_NULLABLE_KINDS), "nullable"), (semfam.nested_allof_doc, "nested")):
+            doc, feats, cand = gen(frng.fork(f"{tag}{i}"), off + i)
+            docs.append((doc, {f"family:{tag}", *feats}))
+            fam_insts[semgen.canon(doc)] = [c for c in cand if semgen.is_valid(doc, c)]
     for doc, feats in docs:
         try:
             ssx = semlean.schema_sx(semlean.body_of(doc), top=True)
@@ -138,6 +166,8 @@ def campaign_model(ck: Check, n: int, parts: tuple = ("valid", "tr", "acc"), for
             c0.hit(f"unmodelled:{str(e)[:30]}")
             continue
         vi = semgen.valid_instances(doc) if (ca or cc) else []
+        if ca or cc:
+            vi = vi[:12] + [x for x in fam_insts.get(semgen.canon(doc), []) if x not in vi[:12]] if semgen.canon(doc) in fam_insts else vi
         muts = []
         for inst in vi[:3]:
             muts += semgen.mutations(doc, inst)
@@ -262,6 +292,12 @@ def campaign_model(ck: Check, n: int, parts: tuple = ("valid", "tr", "acc"), for
                 if st == "v1" and semgen.allof_required_const(doc):
                     cc.hit("known:v1_const_member_required_by_allOf")  # D41: the same `Field(..., const=True)`
                     continue
+                if tri == "reject" and ok and missing_required_nullable(doc, semlean.body_of(doc), x):
+                    # D7 (C04) where `acceptsTy` cannot see it: the member's IR type is a plain reference / a union with
+                    # a root-model alternative; the WRITER makes it `Optional[...]` (= None in v2; an Optional without
+                    # default is optional in pydantic v1) because the definition / the alternative is nullable
+                    cc.hit("known:required_member_admitting_null_through_ref_or_root_model")
+                    continue
                 ck.disagree(cc, {"doc": doc, "instance": x, "style": st, "routing": r}, tri, "accept" if ok else "reject")
             elif len(cc.samples) < 2 and not ok:
                 cc.samples.append({"doc": doc, "instance": x, "style": st, "routing": r, "verdict": tri})
@@ -337,7 +373,43 @@ def causes_for(doc: dict, inst: Any, style: str, oracle: str = "valid_rejected")
         return "v1_regex_anchored"
     if style == "v1" and union_str_before_number(doc):
         return "v1_union_left_to_right"
+    return null_place_cause(doc, inst)
+
+
+# where the pinned tree loses the `null` of a type list `["array", "null"]` / `["object", "null"]` (known findings
+# D45 / D45b / D46); every other (kind, position) is accepted and has no cause
+NULL_LOST_EVERYWHERE = [("array", "array_item"), ("array", "map_value"), ("array", "root"), ("array", "union_alt/member_required"), ("object_props", "root")]
+NULL_LOST_WITHOUT_MEMBER_OPTIONAL = [("array", "member"), ("array", "union_alt/member")]
+
+
+def _has_null(v: Any) -> bool:
+    if v is None:
+        return True
+    if isinstance(v, dict):
+        return any(_has_null(x) for x in v.values())
+    if isinstance(v, list):
+        return any(_has_null(x) for x in v)
+    return False
+
+
+def null_place_cause(doc: dict, inst: Any) -> str:
+    """`null_at_nullable_<kind>@<position>` when the instance carries null under a nullable type list at one of
+    the places listed above (the first in that order), else `none`""" 
+    if not _has_null(inst):
+        return "none"
+    places = semfam.null_places(doc, semlean.body_of(doc), inst)
+    for kp in NULL_LOST_EVERYWHERE + NULL_LOST_WITHOUT_MEMBER_OPTIONAL:
+        if kp in places:
+            return f"null_at_nullable_{kp[0]}@{kp[1]}"
     return "none"
+
+
+def collapsed_item_count(doc: dict, err: str) -> bool:
+    """the document has an array-typed definition and the complaint is about an item count (C14's D39b: under
+    --collapse-root-models the member `List[List[int]] = Field(..., min_items=…)` applies the outer count to the
+    inlined inner list in pydantic v1)"""
+    arr_def = any(isinstance(v, dict) and v.get("type") == "array" for v in (doc.get("definitions") or {}).values())
+    return arr_def and any(t in err for t in ("min_items", "max_items", "too_short", "too_long", "at least", "at most"))
 
 
 def _drop_absent_nones(dumped: Any, inst: Any, declared_only: bool = True) -> Any:
@@ -403,6 +475,8 @@ def oracle_doc(ck: Check, camp, doc: dict, target: tuple, insts: list | None = N
             if cause == "none" and style == "v2" and kind == semrun.STYLE_MODEL["v2"] and shadowed_class_names(b.code):
                 cause = "member_name_shadows_class_name"
             if not ok:
+                if cause == "none" and optname == "collapse_root_models" and collapsed_item_count(doc, str(obj)):
+                    cause = "collapse_root_models_array_def_item_count"
                 ck.fail({**base, "oracle": "valid_rejected", "mechanism": "validation_error", "cause": cause}, {**inp, "instance": inst}, f"valid instance rejected: {str(obj)[:300]}")
                 continue
             try:
@@ -677,15 +751,67 @@ def campaign_random(ck: Check, n: int) -> None:
     camp.wall_s = time.time() - t0
 
 
+FAMILY_TARGETS = [*TARGETS, ("dataclasses.dataclass",), ("typing.TypedDict",)]
+
+
+def campaign_family(ck: Check, n_nullable: int, n_nested: int) -> None:
+    """two families the general generator does not reach (vlib/semfam.py), every document through every target"""
+    ca = ck.campaign("e2e oracle, family: nullable type lists [T, \"null\"] for every type T × every position, null instances at exactly that position")
+    cb = ck.campaign("e2e oracle, family: combinations (allOf / oneOf / anyOf) nested in allOf members, with and without sibling properties, instances carrying the nested members")
+    for camp, n, gen, fork in ((ca, n_nullable, semfam.nullable_doc, "fam-nullable"), (cb, n_nested, semfam.nested_allof_doc, "fam-nested")):
+        t0 = time.time()
+        rng = ck.rng.fork(fork)
+        off = rng.below(96)
+        for i in range(n):
+            plain = i % 2 == 1  # dataclass output has no aliases: plain member names in every second document
+            doc, feats, cand = gen(rng.fork(str(i)), off + i, plain)
+            insts = [c for c in cand if semgen.is_valid(doc, c)]
+            camp.hit("instance:constructed_for_the_family", len(insts))
+            if len(insts) < len(cand):
+                camp.hit("candidate_not_valid", len(cand) - len(insts))
+            for x in semgen.valid_instances(doc, limit=12):
+                if x not in insts:
+                    insts.append(x)
+            for f in feats:
+                camp.hit(f"feature:{f}")
+            try:
+                semlean.schema_sx(semlean.body_of(doc), top=True)
+                semlean.defs_sx(doc)
+                camp.hit("lean_model:covered")
+            except semlean.Unmodelled as e:
+                camp.hit(f"lean_model:outside ({str(e)[:50]})")
+            for t in FAMILY_TARGETS:
+                if t[0] == "dataclasses.dataclass" and not plain:
+                    continue
+                oracle_doc(ck, camp, doc, t, insts)
+        camp.wall_s = time.time() - t0
+
+
 # ============================================================ search, findings, replay
+def match_none(ck: Check, f) -> bool:
+    """the failure is not one of the known findings"""
+    from ..runner import match_finding
+
+    return match_finding(ck.findings, f.classification) is None
+
+
 def search(ck: Check) -> None:
-    camp = ck.campaign("search: focused corpus + keyword documents after a broken obligation / correspondence")
+    camp = ck.campaign("search: focused corpus + family and keyword documents after a broken obligation / correspondence")
     for _label, doc in focused_docs():
         for t in TARGETS:
             oracle_doc(ck, camp, doc, t)
         if ck.failures:
             return
     rng = ck.rng.fork("search")
+    # the families first (a disagreement of the model on a family document is most likely to show there)
+    for i in range(40):
+        for gen, tag in ((semfam.nullable_doc, "nullable"), (semfam.nested_allof_doc, "nested")):
+            doc, _f, cand = gen(rng.fork(f"{tag}{i}"), i)
+            insts = [c for c in cand if semgen.is_valid(doc, c)] + semgen.valid_instances(doc, limit=8)
+            for t in TARGETS:
+                oracle_doc(ck, camp, doc, t, insts)
+        if any(match_none(ck, f) for f in ck.failures):
+            return
     for i in range(60):
         doc, _ = semgen.gen_doc(rng.fork(str(i)), gen_cfg(i))
         for t in TARGETS:
@@ -723,6 +849,7 @@ def run(ck: Check) -> None:
     campaign_model(ck, 40 if quick else 400)
     campaign_focused(ck)
     campaign_random(ck, 70 if quick else 900)
+    campaign_family(ck, 13 if quick else 130, 8 if quick else 100)
     ck.search_hooks.append(search)
     known_findings(ck)
 
